@@ -165,7 +165,7 @@ class StubRng:
         return (np.arange(n) % self.grid + 0.5) / self.grid
 
     def choice(self, a, size=None):
-        return np.asarray(list(a))[:1]
+        return np.asarray(list(range(int(a))) if isinstance(a, (int, np.integer)) else list(a))[:1]
 
 
 def judge(bd, hist, h, view, batch, col, entry):
